@@ -365,8 +365,9 @@ class Obligation:
             elif ex.solver.check(zbool(neg), *small) == z3.sat:
                 m = ex.solver.model()
             else:
-                self.inconclusive.append('counterexample for %s needs a payload too large to replay' % label)
-                return False
+                # the preferences cannot be met: keep the solver's own counterexample
+                ex.solver.check(zbool(neg))
+                m = ex.solver.model()
         desc = describe(m) if describe else {'model': str(m)[:2000]}
         # known findings: a finding is identified by (property, obligation prefix, label prefix, optional predicate id)
         for kf in self.chk.known_findings.get('findings', []):
